@@ -1,0 +1,181 @@
+//go:build verif
+
+package preprocess
+
+// Contracts for govc (/verif). Comment-only file: no executable code, not part of the default build.
+// C33: the proposer's block size estimate (blockSizeComputation) against the encoded size of a block body.
+
+/*@
+// network limit for one message: p2p/libp2p maxSendBuffSize = 1 MiB - 64 KiB header allowance
+const networkLimit = 983040
+// configured BlockSizeThrottleConfig.MaxSizeInBytes (90 % of 1 MiB); the safety margin is networkLimit - configuredMaxSize = 39322
+const configuredMaxSize = 943718
+
+// ASSUMPTION (DESIGN C33 "A", cross-checked bounded in $VF/rac): the marshalizer writes exactly Size() bytes. Stated for the
+// two types the calibration marshals: a miniblock with 32-byte hashes, and a batch of equally long entries.
+func (m marshal.Marshalizer) Marshal(obj interface{}) (r []byte, err error)
+  ensures miniblock-length: err == nil && typeIs(obj, ptr_block.MiniBlock) && hashes32(payload(obj, ptr_block.MiniBlock)) ==> len(r) == mbSize(payload(obj, ptr_block.MiniBlock))
+  ensures batch-length: err == nil && typeIs(obj, ptr_batch.Batch) && uniformData(payload(obj, ptr_batch.Batch)) && dataOnly(payload(obj, ptr_batch.Batch)) && len(payload(obj, ptr_batch.Batch).Data) > 0 ==> len(r) == len(payload(obj, ptr_batch.Batch).Data) * (1 + len(payload(obj, ptr_batch.Batch).Data[0]) + sovB(uint64(len(payload(obj, ptr_batch.Batch).Data[0]))))
+  assigns nothing
+
+func (r io.Reader) Read(p []byte) (n int, err error)
+  assigns elems(p)
+
+// one read of the throttler's current limit (a value that changes between blocks; `pure` = it is one fixed value within a
+// single isMaxBlockSizeReached call, which calls it once)
+func (t BlockSizeThrottler) GetCurrentMaxSize() (r uint32)
+  pure
+
+func (bsc *blockSizeComputation) generateDummyMiniblock(numTxHashes int) (mb *block.MiniBlock)
+  requires 0 <= numTxHashes && numTxHashes <= 100000
+  requires system-random-source-set: rand.Reader != nil
+  ensures  fresh-miniblock: mb != nil && fresh(mb)
+  ensures  count: len(mb.TxHashes) == numTxHashes
+  ensures  hashes-32: hashes32(mb)
+  ensures  calibration-ids: mb.ReceiverShardID == 999 && mb.SenderShardID == 999 && mb.Type == 0 && len(mb.Reserved) == 0
+  ensures  encoded-size: mbSize(mb) == 34*numTxHashes + 6
+  assigns  nothing
+loop 1
+  invariant 0 <= i && i <= numTxHashes && len(mb.TxHashes) == numTxHashes && fresh(mb) && fresh(mb.TxHashes)
+  invariant forall k :: 0 <= k && k < i ==> len(mb.TxHashes[k]) == 32
+  invariant mb.ReceiverShardID == 999 && mb.SenderShardID == 999 && mb.Type == 0 && len(mb.Reserved) == 0
+
+// size of a batch of `count` marshalled calibration miniblocks with t hashes each
+spec fn dummyMb(t int) int = 34*t + 6
+spec fn dummyBatch(count int, t int) int = count * (1 + dummyMb(t) + sovB(uint64(dummyMb(t))))
+
+func (bsc *blockSizeComputation) generateDummyBlockbodySize(marshalizer marshal.Marshalizer, numMiniblocks int, numTxHashesPerMiniblock int) (r uint32, err error)
+  requires marshalizer != nil
+  requires calibration-range: 1 <= numMiniblocks && numMiniblocks <= 1000 && 0 <= numTxHashesPerMiniblock && numTxHashesPerMiniblock <= 1000
+  requires system-random-source-set: rand.Reader != nil
+  ensures  batch-of-dummies: err == nil ==> r == dummyBatch(numMiniblocks, numTxHashesPerMiniblock)
+  ensures  error-is-zero: err != nil ==> r == 0
+  assigns  nothing
+loop 1
+  invariant 0 <= i && i <= numMiniblocks && fresh(b) && b != nil && len(b.Data) == i
+  invariant cap(b.Data) == 0 || fresh(b.Data)
+  invariant forall k :: 0 <= k && k < i ==> len(b.Data[k]) == dummyMb(numTxHashesPerMiniblock)
+  invariant dataOnly(b)
+
+func (bsc *blockSizeComputation) precomputeValues(marshalizer marshal.Marshalizer) (err error)
+  requires marshalizer != nil
+  requires system-random-source-set: rand.Reader != nil
+  ensures  tx-size-34: err == nil ==> bsc.txSize == 34
+  ensures  miniblock-size-9: err == nil ==> bsc.miniblockSize == 9
+  assigns  bsc.txSize, bsc.miniblockSize
+
+// the estimate as a mathematical integer (no wrap)
+spec fn estimate(bsc *blockSizeComputation, mbs int, txs int) int = bsc.miniblockSize*mbs + bsc.txSize*txs
+
+func (bsc *blockSizeComputation) isMaxBlockSizeReached(totalMiniBlocks uint32, totalTxs uint32) (r bool)
+  requires bsc.blockSizeThrottler != nil
+  requires no-uint32-wrap: estimate(bsc, totalMiniBlocks, totalTxs) < 4294967296      // environment: counts far below 2^32/34
+  ensures  reached-iff-estimate-above-current-max: r <==> estimate(bsc, totalMiniBlocks, totalTxs) > bsc.blockSizeThrottler.GetCurrentMaxSize()
+  assigns  nothing
+
+func (bsc *blockSizeComputation) isMaxBlockSizeWithoutThrottleReached(totalMiniBlocks uint32, totalTxs uint32) (r bool)
+  requires no-uint32-wrap: estimate(bsc, totalMiniBlocks, totalTxs) < 4294967296      // environment: counts far below 2^32/34
+  ensures  reached-iff-estimate-above-max: r <==> estimate(bsc, totalMiniBlocks, totalTxs) > bsc.maxSize
+  assigns  nothing
+
+func (bsc *blockSizeComputation) MaxTransactionsInOneMiniblock() (r int)
+  requires calibrated: bsc.txSize >= 1 && bsc.miniblockSize <= bsc.maxSize          // NewBlockSizeComputation does not check maxSize >= miniblockSize
+  ensures  largest-that-fits: estimate(bsc, 1, r) <= bsc.maxSize && estimate(bsc, 1, r+1) > bsc.maxSize
+  ensures  non-negative: r >= 0
+  assigns  nothing
+
+// ---- the property: "estimate says it fits" ==> the encoded body is below the network limit ----
+
+// a body as the proposer builds it (32-byte hashes, no nil entry, no Reserved bytes, declared types) with T hashes in total
+spec fn builtBody(body *block.Body, T uint32) bool = nonNilEntries(body) && hashes32Body(body) && plainBody(body) && tsum(body, len(body.MiniBlocks)) == T && T <= 100000000
+spec fn calibratedFor(bsc *blockSizeComputation, max int) bool = bsc.miniblockSize == 9 && bsc.txSize == 34 && bsc.maxSize == max
+
+// PROVED: after calibration (precomputeValues) the estimate is miniblockSize 9 / txSize 34, and for a body of at most 3932
+// miniblocks (any shard identifiers, any declared type, any distribution of the hashes) "not reached" implies that the
+// encoded body fits the network limit: the undershoot is at most 10 bytes per miniblock, the margin is 39322 bytes.
+lemma estimate-covers-bodies-up-to-3932-miniblocks
+  vars bsc *blockSizeComputation, marshalizer marshal.Marshalizer, body *block.Body, T uint32
+  hyp  marshalizer != nil && rand.Reader != nil && bsc.maxSize == configuredMaxSize
+  hyp  builtBody(body, T)
+  hyp  few-miniblocks: len(body.MiniBlocks) <= 3932
+  call err = bsc.precomputeValues(marshalizer)
+  hyp  err == nil
+  call reached = bsc.isMaxBlockSizeWithoutThrottleReached(uint32(len(body.MiniBlocks)), T)
+  call n = body.Size()
+  concl calibrated: calibratedFor(bsc, configuredMaxSize)
+  concl undershoot-at-most-10-per-miniblock: n <= estimate(bsc, len(body.MiniBlocks), T) + 10*len(body.MiniBlocks)
+  concl fits: !reached ==> n <= networkLimit
+
+// the same through the throttled check (the throttler never goes above the configured maximum)
+lemma throttled-estimate-covers-bodies-up-to-3932-miniblocks
+  vars bsc *blockSizeComputation, body *block.Body, T uint32
+  hyp  calibratedFor(bsc, configuredMaxSize) && bsc.blockSizeThrottler != nil
+  hyp  throttle-below-max: bsc.blockSizeThrottler.GetCurrentMaxSize() <= configuredMaxSize
+  hyp  builtBody(body, T)
+  hyp  few-miniblocks: len(body.MiniBlocks) <= 3932
+  call reached = bsc.isMaxBlockSizeReached(uint32(len(body.MiniBlocks)), T)
+  call n = body.Size()
+  concl fits: !reached ==> n <= networkLimit
+
+// EXPECTED TO FAIL (finding F33): without the bound on the number of miniblocks the estimate undershoots by 8..10 bytes per
+// miniblock addressed to the metachain (calibration uses shard id 999 and type 0: 9 bytes; metachain ids and a type
+// >= 128 need 17..19): "not reached" for 104857 empty metachain miniblocks (estimate 943713 <= 943718), encoded body
+// 1782569 bytes > 983040. Reproduction: $VF/repro/C33_F33_test.go.
+lemma estimate-covers-every-body
+  vars bsc *blockSizeComputation, body *block.Body, T uint32
+  hyp  calibratedFor(bsc, configuredMaxSize)
+  hyp  builtBody(body, T)
+  call reached = bsc.isMaxBlockSizeWithoutThrottleReached(uint32(len(body.MiniBlocks)), T)
+  call n = body.Size()
+  concl fits: !reached ==> n <= networkLimit
+
+// the undershoot is real, not an artefact of the upper bound: metachain-to-metachain miniblocks of a type >= 128 take at least
+// 17 bytes each on top of the hashes, 8 more than the estimate
+lemma metachain-miniblocks-undershoot-by-8
+  vars bsc *blockSizeComputation, body *block.Body, T uint32
+  hyp  calibratedFor(bsc, configuredMaxSize)
+  hyp  builtBody(body, T) && metaBody(body)
+  call n = body.Size()
+  concl undershoot: n >= estimate(bsc, len(body.MiniBlocks), T) + 8*len(body.MiniBlocks)
+@*/
+
+// ---- the exported estimator API (running counters, sync/atomic) ----
+/*@
+func (bsc *blockSizeComputation) Init()
+  ensures  counters-reset: bsc.numTxs == 0 && bsc.numMiniBlocks == 0
+  assigns  bsc.numTxs, bsc.numMiniBlocks
+
+func (bsc *blockSizeComputation) AddNumMiniBlocks(numMiniBlocks int)
+  requires no-uint32-wrap: 0 <= numMiniBlocks && bsc.numMiniBlocks + numMiniBlocks < 4294967296
+  ensures  added: bsc.numMiniBlocks == old(bsc.numMiniBlocks) + numMiniBlocks
+  assigns  bsc.numMiniBlocks
+
+func (bsc *blockSizeComputation) AddNumTxs(numTxs int)
+  requires no-uint32-wrap: 0 <= numTxs && bsc.numTxs + numTxs < 4294967296
+  ensures  added: bsc.numTxs == old(bsc.numTxs) + numTxs
+  assigns  bsc.numTxs
+
+func (bsc *blockSizeComputation) IsMaxBlockSizeWithoutThrottleReached(numNewMiniBlocks int, numNewTxs int) (r bool)
+  requires counts-in-range: 0 <= numNewMiniBlocks && numNewMiniBlocks <= 100000000 && 0 <= numNewTxs && numNewTxs <= 100000000
+  requires no-uint32-wrap: estimate(bsc, bsc.numMiniBlocks + numNewMiniBlocks, bsc.numTxs + numNewTxs) < 4294967296
+  ensures  reached-iff-estimate-above-max: r <==> estimate(bsc, bsc.numMiniBlocks + numNewMiniBlocks, bsc.numTxs + numNewTxs) > bsc.maxSize
+  assigns  nothing
+
+func (bsc *blockSizeComputation) IsMaxBlockSizeReached(numNewMiniBlocks int, numNewTxs int) (r bool)
+  requires bsc.blockSizeThrottler != nil
+  requires counts-in-range: 0 <= numNewMiniBlocks && numNewMiniBlocks <= 100000000 && 0 <= numNewTxs && numNewTxs <= 100000000
+  requires no-uint32-wrap: estimate(bsc, bsc.numMiniBlocks + numNewMiniBlocks, bsc.numTxs + numNewTxs) < 4294967296
+  ensures  reached-iff-estimate-above-current-max: r <==> estimate(bsc, bsc.numMiniBlocks + numNewMiniBlocks, bsc.numTxs + numNewTxs) > bsc.blockSizeThrottler.GetCurrentMaxSize()
+  assigns  nothing
+
+// the property through the exported API: counters reset, then the whole body asked at once
+lemma exported-estimate-covers-bodies-up-to-3932-miniblocks
+  vars bsc *blockSizeComputation, body *block.Body, T uint32
+  hyp  calibratedFor(bsc, configuredMaxSize)
+  hyp  builtBody(body, T)
+  hyp  few-miniblocks: len(body.MiniBlocks) <= 3932
+  call _ = bsc.Init()
+  call reached = bsc.IsMaxBlockSizeWithoutThrottleReached(len(body.MiniBlocks), int(T))
+  call n = body.Size()
+  concl fits: !reached ==> n <= networkLimit
+@*/
